@@ -26,7 +26,7 @@ use std::{
     sync::atomic::{AtomicU64, Ordering},
 };
 
-use parking_lot::Mutex;
+use parking_lot::{Mutex, RwLock};
 use serde::{Deserialize, Serialize};
 use tracing::instrument;
 
@@ -92,7 +92,13 @@ pub struct SlabRouter {
     wal: Option<Mutex<TensorWal>>,
     /// Checkpoint counter for unique IDs.
     checkpoint_counter: AtomicU64,
+    /// Lock stripes making the multi-structure operations on embedding-class keys
+    /// (entity index + embedding slab + metadata) atomic with respect to each other.
+    emb_locks: [RwLock<()>; EMB_LOCK_STRIPES],
 }
+
+/// Number of lock stripes for embedding-class keys.
+const EMB_LOCK_STRIPES: usize = 16;
 
 impl SlabRouter {
     /// Create a new slab router with default configuration.
@@ -126,6 +132,7 @@ impl SlabRouter {
             ops_count: AtomicU64::new(0),
             wal: None,
             checkpoint_counter: AtomicU64::new(0),
+            emb_locks: std::array::from_fn(|_| RwLock::new(())),
         }
     }
 
@@ -160,6 +167,7 @@ impl SlabRouter {
             ops_count: AtomicU64::new(0),
             wal: Some(Mutex::new(wal)),
             checkpoint_counter: AtomicU64::new(0),
+            emb_locks: std::array::from_fn(|_| RwLock::new(())),
         })
     }
 
@@ -174,6 +182,8 @@ impl SlabRouter {
 
         match Self::classify_key(key) {
             KeyClass::Embedding => {
+                // index + slab + metadata change as one step for readers of this key
+                let _guard = self.emb_lock(key).write();
                 let entity_id = self.index.get_or_create(key);
                 // Extract vector from TensorValue if present
                 if let Some(TensorValue::Vector(vec)) = value.get("_embedding") {
@@ -219,6 +229,7 @@ impl SlabRouter {
 
         match Self::classify_key(key) {
             KeyClass::Embedding => {
+                let _guard = self.emb_lock(key).read();
                 if let Some(entity_id) = self.index.get(key) {
                     if let Some(vector) = self.embeddings.get(entity_id) {
                         let mut data = self.metadata.get(key).unwrap_or_default();
@@ -253,6 +264,7 @@ impl SlabRouter {
         // of two concurrent deletes of one key exactly one finds (and removes) the entry.
         let found = match Self::classify_key(key) {
             KeyClass::Embedding => {
+                let _guard = self.emb_lock(key).write();
                 if let Some(entity_id) = self.index.get(key) {
                     self.embeddings.delete(entity_id);
                 }
@@ -282,7 +294,10 @@ impl SlabRouter {
     /// Check if a key exists.
     pub fn exists(&self, key: &str) -> bool {
         match Self::classify_key(key) {
-            KeyClass::Embedding => self.index.contains(key) || self.metadata.contains(key),
+            KeyClass::Embedding => {
+                let _guard = self.emb_lock(key).read();
+                self.index.contains(key) || self.metadata.contains(key)
+            },
             KeyClass::Cache => self.cache.contains(key),
             _ => self.metadata.contains(key),
         }
@@ -389,6 +404,7 @@ impl SlabRouter {
             ops_count: AtomicU64::new(0),
             wal: None,
             checkpoint_counter: AtomicU64::new(0),
+            emb_locks: std::array::from_fn(|_| RwLock::new(())),
         }
     }
 
@@ -414,6 +430,7 @@ impl SlabRouter {
             ops_count: AtomicU64::new(0),
             wal: Some(Mutex::new(wal)),
             checkpoint_counter: AtomicU64::new(0),
+            emb_locks: std::array::from_fn(|_| RwLock::new(())),
         })
     }
 
@@ -718,6 +735,14 @@ impl SlabRouter {
                 .map_err(|e| SlabRouterError::WalError(format!("Failed to sync WAL: {e}")))?;
         }
         Ok(())
+    }
+
+    /// Lock stripe for an embedding-class key.
+    fn emb_lock(&self, key: &str) -> &RwLock<()> {
+        let h = key
+            .bytes()
+            .fold(0usize, |a, b| a.wrapping_mul(31).wrapping_add(usize::from(b)));
+        &self.emb_locks[h % EMB_LOCK_STRIPES]
     }
 
     /// Classify a key to determine which slab should handle it.
